@@ -146,6 +146,65 @@ class Folder(object):
                     return l * r
             except Exception as exc:
                 raise Unfoldable(str(exc))
+        if isinstance(node, (ast.DictComp, ast.ListComp, ast.SetComp, ast.GeneratorExp)):
+            # a comprehension over tables that fold: evaluated with the targets bound in the environment
+            rows = []
+
+            def bind(tgt, val, e2):
+                if isinstance(tgt, ast.Name):
+                    e2[tgt.id] = val
+                elif isinstance(tgt, (ast.Tuple, ast.List)) and isinstance(val, (tuple, list)) and len(val) == len(tgt.elts):
+                    for t0, v0 in zip(tgt.elts, val):
+                        bind(t0, v0, e2)
+                else:
+                    raise Unfoldable("comprehension target %s" % unparse(tgt))
+
+            def run(gens, e2):
+                if not gens:
+                    rows.append(dict(e2))
+                    return
+                g0 = gens[0]
+                it = self.fold(g0.iter, mod, cls, _depth + 1, e2)
+                if isinstance(it, dict):
+                    it = list(it)
+                if not isinstance(it, (list, tuple, set)) or g0.is_async:
+                    raise Unfoldable("comprehension over %s" % unparse(g0.iter)[:40])
+                for v in (sorted(it, key=repr) if isinstance(it, set) else it):
+                    e3 = dict(e2)
+                    bind(g0.target, v, e3)
+                    if all(self.fold(c, mod, cls, _depth + 1, e3) for c in g0.ifs):
+                        run(gens[1:], e3)
+            run(list(node.generators), dict(env or {}))
+            if len(rows) > 400:
+                raise Unfoldable("comprehension too large")
+            if isinstance(node, ast.DictComp):
+                return dict((self.fold(node.key, mod, cls, _depth + 1, r), self.fold(node.value, mod, cls, _depth + 1, r)) for r in rows)
+            vals = [self.fold(node.elt, mod, cls, _depth + 1, r) for r in rows]
+            return set(vals) if isinstance(node, ast.SetComp) else vals
+        if isinstance(node, ast.Compare) and len(node.ops) == 1:
+            l, r = f(node.left), f(node.comparators[0])
+            op = node.ops[0]
+            try:
+                if isinstance(op, ast.In):
+                    return l in r
+                if isinstance(op, ast.NotIn):
+                    return l not in r
+                if isinstance(op, ast.Eq):
+                    return l == r
+                if isinstance(op, ast.NotEq):
+                    return l != r
+            except Exception as exc:
+                raise Unfoldable(str(exc))
+        if isinstance(node, ast.IfExp):
+            return f(node.body) if f(node.test) else f(node.orelse)
+        if isinstance(node, ast.UnaryOp) and isinstance(node.op, ast.Not):
+            return not f(node.operand)
+        if isinstance(node, ast.BoolOp):
+            vals = [f(v) for v in node.values]
+            out = vals[0]
+            for v in vals[1:]:
+                out = (out and v) if isinstance(node.op, ast.And) else (out or v)
+            return out
         if isinstance(node, ast.JoinedStr):
             parts = []
             for v in node.values:
@@ -167,6 +226,19 @@ class Folder(object):
                         return base.format(*[f(a) for a in node.args], **dict((k.arg, f(k.value)) for k in node.keywords if k.arg))
                     except Exception as exc:
                         raise Unfoldable(str(exc))
+            if fn in ("int", "bool", "str") and len(node.args) == 1 and not node.keywords:
+                v = f(node.args[0])
+                if isinstance(v, (bool, int, str)) and not isinstance(v, NS):
+                    try:
+                        return {"int": int, "bool": bool, "str": str}[fn](v)
+                    except Exception as exc:
+                        raise Unfoldable(str(exc))
+            if fn == "getattr" and len(node.args) == 2 and not node.keywords:
+                nm = f(node.args[1])
+                if isinstance(nm, str):
+                    return self.fold(ast.Attribute(value=node.args[0], attr=nm, ctx=ast.Load()), mod, cls, _depth + 1, env)
+            if fn == "zip" and len(node.args) >= 1 and not node.keywords:
+                return list(zip(*[f(a) for a in node.args]))
             if fn.split(".")[-1] == "Namespace" and len(node.args) == 1:
                 return "NSBASE:" + str(f(node.args[0]))
             if fn in ("copy.deepcopy", "copy.copy", "dict", "list", "tuple", "set") and len(node.args) == 1:
